@@ -455,12 +455,15 @@ class Bin(Factory, Container):
                 value.fill(None, float(hi))
 
         else:
+            belowhigh = q < self.high
             q = np.array(q, dtype=np.float64)
             np.subtract(q, self.low, q)
             np.multiply(q, self.num, q)
             np.divide(q, self.high - self.low, q)
             np.floor(q, q)
             q = np.array(q, dtype=int)
+            # as in bin(): a value below high whose quotient rounded up to num belongs to the last bin
+            q[np.logical_and(belowhigh, q >= self.num)] = self.num - 1
 
             for index, value in enumerate(self.values):
                 np.not_equal(q, index, selection)
